@@ -523,7 +523,10 @@ func main() {
 	out := flag.String("out", "/verif/coq/gen", "output directory")
 	flag.Parse()
 
+	// read everything first: nothing is written when any source is refused
 	fmtNames, formats := readFormats(*repo)
+	unitNames, rows, calls := readRows(*repo, fmtNames)
+	regNames, regs := readRegs(*repo)
 	var b strings.Builder
 	fmt.Fprintf(&b, banner, "amd/insts/format.go")
 	b.WriteString("From Coq Require Import NArith List String.\nFrom VIsa Require Import InstTypes.\nImport ListNotations.\nOpen Scope N_scope.\nOpen Scope string_scope.\n\n")
@@ -546,7 +549,6 @@ func main() {
 	b.WriteString("].\n")
 	writeIfChanged(filepath.Join(*out, "FormatTable.v"), b.String())
 
-	unitNames, rows, calls := readRows(*repo, fmtNames)
 	uidx := map[string]int{}
 	for i, u := range unitNames {
 		uidx[u] = i
@@ -576,7 +578,6 @@ func main() {
 	b.WriteString("].\n")
 	writeIfChanged(filepath.Join(*out, "DecodeTable.v"), b.String())
 
-	regNames, regs := readRegs(*repo)
 	ridx := map[string]int{}
 	for i, n := range regNames {
 		ridx[n] = i
